@@ -618,7 +618,7 @@ func (e *Engine) inlinable(fn *ssa.Function, isClosure bool) bool {
 
 var pureExternal = map[string]bool{}
 
-var purePkgs = []string{"fmt.", "slog.", "log.", "errors.", "strings.", "strconv.", "filepath.", "path.", "time.", "prometheus.", "context.", "math.", "sort.Search", "bytes.Equal", "hex.", "unicode.", "utf8.", "atomic.", "sync.", "runtime.", "reflect.", "url.", "regexp.", "humanize.", "bits.", "crc64.", "crc32.", "rand."}
+var purePkgs = []string{"fmt.", "slog.", "log.", "errors.", "strings.", "strconv.", "filepath.", "path.", "time.", "prometheus.", "context.", "math.", "sort.Search", "bytes.Equal", "hex.", "unicode.", "utf8.", "atomic.", "sync.", "runtime.", "reflect.", "url.", "regexp.", "humanize.", "bits.", "crc64.", "crc32.", "rand.", "json.Marshal", "bytes.NewReader", "bytes.NewBuffer"}
 
 func (e *Engine) isPureExternal(key string, fn *ssa.Function) bool {
 	if e.inModule(fn) {
